@@ -537,6 +537,8 @@ type SliceOpts struct {
 	// ArgsOf controls whether the arguments of a call contribute to its result
 	// (default: yes — conservative for "derived from" questions).
 	NoCallArgs bool
+	// NoLookupIndex: do not treat the index of a map/string lookup as contributing to its result.
+	NoLookupIndex bool
 }
 
 // backSlice computes the set of values that v is data-derived from.
@@ -632,7 +634,9 @@ func backSlice(v ssa.Value, o SliceOpts) map[ssa.Value]bool {
 			walk(x.X, stack, depth)
 		case *ssa.Lookup:
 			walk(x.X, stack, depth)
-			walk(x.Index, stack, depth)
+			if !o.NoLookupIndex {
+				walk(x.Index, stack, depth)
+			}
 		case *ssa.Slice:
 			walk(x.X, stack, depth)
 		case *ssa.Convert:
